@@ -25,8 +25,10 @@ def run(prop, tier, seed, work, ev):
     ev.trusted.append("Eval.tla (Sig/Validate/Apply) as the reading of the JMESPath function specification (DESIGN.md Appendix A)")
     if prop == "C02":
         tlc_ok("mc/MC_Call.tla", "MC_Call_val.cfg" if tier == "quick" else "MC_Call_val_thorough.cfg", work, ev=ev,
-               label="function contract on value domains " + tier, timeout=3000)
+               label="function contract on value domains; algorithms as coded (FunctionsL1) = Apply " + tier, timeout=3000)
         tlc_must_fail("mc/MC_Call.tla", "MC_Call_val_nonvacuous.cfg", work, invariant="Inv_NoTiesExercised", ev=ev)
+        tlc_must_fail("mc/MC_Call.tla", "MC_Call_val_neg_unstable.cfg", work, invariant="Inv_L1Functions", ev=ev)
+        tlc_must_fail("mc/MC_Call.tla", "MC_Call_val_neg_merge.cfg", work, invariant="Inv_L1Functions", ev=ev)
         ev.exhaustive = True
         ev.rule = ("cases: per-function value domains (number/string arrays of length 0..%d over small pools incl. 2-, 3- and 4-byte code "
                    "points, objects, by-functions over records with tied keys and distinguishable payloads, stability families of length "
